@@ -25,6 +25,11 @@ func c03Tree() core.Tree {
 	t["regex-assembly/exclude/ex.ra"] = "yb\n"
 	t["regex-assembly/include/dup.ra"] = "alpha\nbeta\nalpha\ngamma\n"
 	t["regex-assembly/include/sfx.ra"] = "##!^ p+\n##!$ s+\none\ntwo\n"
+	// exclude files that interact through definitions (they are read in the listed order)
+	t["regex-assembly/include/words.ra"] = "alpha\nbravo\ncharlie\ndelta\n"
+	t["regex-assembly/exclude/defa.ra"] = "##!> define w alpha\nzz\n"
+	t["regex-assembly/exclude/usew.ra"] = "{{w}}\n"
+	t["regex-assembly/exclude/defb.ra"] = "##!> define w delta\n{{w}}\n"
 	t["regex-assembly/include/a.ra"] = "fromfilea\n"
 	t["regex-assembly/include/i.ra"] = "fromfilei\n"
 	t["regex-assembly/123456.ra"] = "placeholder\n"
@@ -136,6 +141,7 @@ var c03Menu = []string{
 	"##!> define d1 x", "##!> define d2 {{d1}}y", "##!> define d3 {{d2}}{{d1}}", "{{d1}}", "{{d3}}{{d2}}",
 	"##!> include inc", "##!> include inc -- a b b c", "##!> include-except inc ex", "##!> include-except inc ex -- a b b c",
 	"##!> include inc -- a b xa q b c",
+	"##!> include-except words defa usew defb", "##!> include-except words usew defb defa ex", "##!> include-except words defb defa usew usew",
 	"##!> include-except dup ex", "##!> include-except sfx ex", "##!> include-except sfx ex -- e z", "##!> include sfx",
 	// lines that several directive patterns could claim (also computed by L1)
 	"##! ##!> include inc", "a ##!> include inc", "##!+ i ##!> include inc", "##!^ p ##!> include inc", "##! ##!> define d1 x", "##!> include-except inc ex ##!> include inc",
